@@ -171,6 +171,11 @@ theorem cfg_step (e : Ep) (ev : Ev) : (step e ev).1.cfg = e.cfg := by
     · split
       · rfl
       · split <;> simp
+  | modulate raw =>
+    simp only []
+    split
+    · rfl
+    · split <;> rfl
 
 end Tcpcl
 end DtnVerif
